@@ -198,12 +198,14 @@ def run(chk):
                               "`(..)`) is reported relative to the slice, so its label points at unrelated text" % (vname, missing or pf), detail=d)
 
     rid = "R33b"
-    chk.rule(rid, "Formatter::fmt: no unwrap/expect; rendering and UTF-8 errors become fmt::Error", floor=1)
+    chk.rule(rid, "Formatter::fmt and its helpers: no unwrap/expect/indexing; rendering and UTF-8 errors become fmt::Error", floor=1)
     cands = [n for n in facts.names() if n.startswith("<diagnostic::formatter::Formatter") and n.endswith("::fmt") and "Display" in n]
     if not cands:
         chk.fail_closed(rid, "Formatter's Display::fmt not found")
     for n in cands:
-        fam = [facts.body(x) for x in facts.family(n)]
+        # fmt, its closures, and the local helpers of the formatter module it calls
+        seen_, _e, _p = facts.reach([n], stop=lambda c: not (c.startswith("diagnostic::formatter") or c.startswith("<diagnostic::formatter")))
+        fam = [facts.body(x) for x in sorted(set(facts.family(n)) | set(seen_))]
         bad = []
         maps = 0
         for fb in fam:
@@ -211,8 +213,13 @@ def run(chk):
                 cal = fb.callee(t)
                 if re.search(r"::(unwrap|expect|unwrap_unchecked)$", cal):
                     bad.append((cal, t["ln"]))
+                if re.search(r"as std::ops::Index(Mut)?<.*>>::index(_mut)?$", cal):
+                    bad.append(("indexing " + cal.split(" as ")[0].lstrip("<"), t["ln"]))
                 if cal.endswith("::map_err") or cal.endswith("Try>::branch"):
                     maps += 1
+            for bb, t in fb.iter_terms("assert"):
+                if "BoundsCheck" in (t.get("msg") or ""):
+                    bad.append(("slice index (bounds check)", t["ln"]))
         d = {"fn": n, "panicky_calls": bad, "error_mappings": maps}
         ok = not bad and maps >= 1
         chk.instance(rid, d, ok=ok)
